@@ -492,6 +492,10 @@ func main() {
 			run.Add(fileCase(d, run.Tier == "thorough"))
 		case "table":
 			run.Add(tableCase())
+		case "code":
+			var d codeDesc
+			json.Unmarshal(in.Raw, &d)
+			run.Add(codeCase(d))
 		}
 	}
 	if run.Replay != "" {
@@ -512,6 +516,11 @@ func main() {
 		}
 	}
 	r := hx.NewRng(run.Seed)
+	// graphs built in code (App.Files -> AddProducer): registered parameter records of every kind
+	rc := hx.NewRng(run.Seed ^ 0xC0DE)
+	for i := 0; i < 6+run.N/10; i++ {
+		run.Add(codeCase(codeDesc{Seed: rc.U64()}))
+	}
 	for i := 0; i < run.N; i++ {
 		d := genHist(r, run, i)
 		cs := histCases(d)
